@@ -23,7 +23,8 @@ def fltCanon (kind hex : String) : String :=
   | "x86_fp80" =>
     let se := b / 2 ^ 64
     let m := b % 2 ^ 64
-    if canonical80 se m then
+    -- every encoding, canonical or not (pseudo-denormals are printed normalised, unnormals / pseudo-infinities / pseudo-NaNs as the NaN of their sign)
+    if se < 2 ^ 16 then
       let r := encode80 (decode80 se m)
       padHex 4 r.1 ++ padHex 16 r.2
     else "skip"
